@@ -83,6 +83,8 @@ def impl(sc, keep=None):
                 for j in range(sc["warm"]):
                     attempt(other.ckd, 1000 + j)
             def one_step():
+                for _ in range(sc.get("repeat", 1) - 1):
+                    attempt(root.ckd, sc["i"])          # the same request earlier on the same parent object (it may have raised)
                 ch = root.ckd(sc["i"])
                 if keep is not None:
                     keep["child"] = ch
@@ -173,6 +175,19 @@ def parse_path(s):
     out = []
     for t in s.split("/")[1:]:
         out.append(int(t[:-1]) + H if t[-1] in "'h" else int(t))
+    return out
+
+
+def clones(obj):
+    """[(how, clone)] for every standard way of duplicating an object that works on it (copy.copy, copy.deepcopy, a pickle
+    round trip). A way that raises is simply not offered - but a clone that IS handed out has to behave like the original."""
+    import copy
+    import pickle
+    out = []
+    for how, f in (("copy.copy", copy.copy), ("copy.deepcopy", copy.deepcopy), ("pickle", lambda o: pickle.loads(pickle.dumps(o)))):
+        st, c = attempt(f, obj)
+        if st == "ok" and c is not None:
+            out.append((how, c))
     return out
 
 
